@@ -208,7 +208,7 @@ def extRaising : Ext where
     else if name == "dt:combine" then .ok (.opaque "datetime" "1970-01-01T00:00:00")
     else .error { cls := .valueError, msg := "ValueError" }
   cond := fun _ _ _ => .error { cls := .zeroDivision, msg := "ZeroDivisionError" }
-  hook := fun _ _ => .error { cls := .attributeError, msg := "AttributeError" }
+  hook := fun _ _ _ => .error { cls := .attributeError, msg := "AttributeError" }
   factory := fun _ => .none
   pyStr := fun _ => "?"
   customTry := fun _ _ => .interrupt
